@@ -108,7 +108,7 @@ func runC13(c *Ctx) {
 }
 
 func c13R1(c *Ctx, rule string) {
-	c.Rule(rule, "guarded-by: Stream.writingFrame (all sub-fields, and its address passed to the encoder) only with Stream.writingM held", 4)
+	c.Rule(rule, "guarded-by: Stream.writingFrame (all sub-fields, and its address passed to the encoder) only with Stream.writingM held", 2)
 	if getMuxAnchors(c, rule) == nil {
 		return
 	}
@@ -368,6 +368,39 @@ func c13R3(c *Ctx, rule string) {
 			}
 		})
 	}
+	// a stream id is never forgotten while the session lives: closing a stream leaves a tombstone (nil entry);
+	// entries are only deleted by the session teardown (after the session's closed flag was won)
+	streamsF := p.Field("internal/multiplex", "Session", "streams")
+	sClosed := p.Field("internal/multiplex", "Session", "closed")
+	if streamsF != nil && sClosed != nil {
+		for _, acc := range FieldAccesses(p, map[*types.Var]bool{streamsF: true}) {
+			if acc.Kind != "delete" {
+				continue
+			}
+			won := false
+			for _, at := range AtomsAt(acc.Instr) {
+				if at.Kind == "call" && at.Pol && calleeName(&at.Call.Call) == "sync/atomic.CompareAndSwapUint32" {
+					if fv, _ := fieldVar(at.Call.Call.Args[0]); fv == sClosed {
+						won = true
+					}
+				}
+			}
+			c.Check(won, rule, "delete from Session.streams in "+shortFn(acc.Fn), c.at(acc.Instr), "only during session teardown (after winning the session's closed flag)",
+				"a stream id is forgotten while the session is alive: a late frame for that id re-creates the stream with sequence numbers starting again at 0, so (stream id, seq) pairs — and AEAD nonces — repeat under the same key")
+		}
+		// closeStream leaves a tombstone
+		if cs := p.Func("internal/multiplex", "Session.closeStream"); cs != nil {
+			tomb := false
+			allInstrs(cs, func(i ssa.Instruction) {
+				if mu, ok := i.(*ssa.MapUpdate); ok && isNilConst(mu.Value) {
+					if fv, _ := loadedField(mu.Map); fv == streamsF {
+						tomb = true
+					}
+				}
+			})
+			c.Check(tomb, rule, "closeStream leaves a tombstone for the id", c.atFn(cs), "streams[id] = nil", "a closed stream's id is not remembered: late frames re-create it with sequence numbers restarting at 0")
+		}
+	}
 	// makeStream copies id into both Stream.id and writingFrame.StreamID
 	if mk := c.need(rule, "internal/multiplex", "makeStream"); mk != nil {
 		idField := p.Field("internal/multiplex", "Stream", "id")
@@ -417,9 +450,10 @@ func c13R4(c *Ctx, rule string) {
 			c.OK(rule, construct, c.at(cs), "sequenced frame of the stream (covered by R1/R2)")
 			continue
 		}
-		// wrapper methods (Session.obfuscate promoted through embedding) forward their parameter
-		if _, isParam := frame.(*ssa.Parameter); isParam {
-			c.OK(rule, construct, c.at(cs), "forwards its caller's frame (callers enumerated separately)")
+		// a function that forwards its own frame parameter: every caller must pass the stream's sequenced frame
+		if prm, isParam := frame.(*ssa.Parameter); isParam {
+			bad := paramFrameSources(p, a, prm, 0)
+			c.Check(len(bad) == 0, rule, construct, c.at(cs), "every caller passes &stream.writingFrame", "the encoder is reached with a frame that is not the stream's sequenced frame: "+strings.Join(bad, "; ")+" — its sequence number is not the stream's counter (numbers can repeat)")
 			continue
 		}
 		al, isAlloc := frame.(*ssa.Alloc)
@@ -460,6 +494,56 @@ func c13R4(c *Ctx, rule string) {
 		c.Check(constOK && dom, rule, construct, c.at(cs), "constant notice frame (0xffffffff, 0, closingSession) sent at most once per session (after closeSession()==nil)",
 			fmt.Sprintf("unsequenced encoder call: constants ok=%v, once-per-session guard=%v", constOK, dom))
 	}
+}
+
+// paramFrameSources follows a frame parameter to the actual arguments of all callers and returns the
+// ones that are not rooted at Stream.writingFrame.
+func paramFrameSources(p *Prog, a *muxAnchors, prm *ssa.Parameter, depth int) []string {
+	f := prm.Parent()
+	idx := -1
+	for k, q := range f.Params {
+		if q == prm {
+			idx = k
+		}
+	}
+	var bad []string
+	callers := p.CallersOf(f)
+	if depth > 3 || idx < 0 {
+		return []string{"unresolved parameter " + prm.Name() + " of " + shortFn(f)}
+	}
+	n := 0
+	for _, cs := range callers {
+		if !p.InRepo(cs.Parent()) || strings.HasSuffix(p.Pos(cs.Pos()), "_test.go") || strings.HasSuffix(p.Pos(cs.Pos()), "_fuzz.go") {
+			continue
+		}
+		args := callArgs(cs.Common())
+		if len(args) != len(f.Params) {
+			continue
+		}
+		if cs.Parent().Synthetic != "" {
+			// wrapper: its own callers
+			if q, ok := args[idx].(*ssa.Parameter); ok {
+				bad = append(bad, paramFrameSources(p, a, q, depth+1)...)
+				n++
+			}
+			continue
+		}
+		n++
+		arg := args[idx]
+		if rootedAtField(arg, a.writingFrame) {
+			continue
+		}
+		if q, ok := arg.(*ssa.Parameter); ok {
+			bad = append(bad, paramFrameSources(p, a, q, depth+1)...)
+			continue
+		}
+		bad = append(bad, shortFn(cs.Parent())+" passes "+Expr(arg)+" at "+p.InstrPos(cs))
+	}
+	if n == 0 && f.Synthetic == "" {
+		// no caller: dead code, nothing to sequence
+		return nil
+	}
+	return bad
 }
 
 func orNil(v ssa.Value) ssa.Value {
